@@ -718,6 +718,7 @@ def evaluate(seed, kind, idx, stats, violations, samples, distinct, jobs_out, wa
                 distinct.add((fmt, repr((s0["nodes"], s0["edges"], s0["time"], s0["pos"], s0["track"]))))
         except Exception as e:  # noqa: BLE001
             ph = info.get("phase", "?")
+            results[fmt] = {"tracks": None, "info": info}  # what was written is still compared with the model
             sig = signature(t, fmt, info, e)
             stats[fmt + "_exc"] = stats.get(fmt + "_exc", 0) + 1
             stats["sig_" + sig] = stats.get("sig_" + sig, 0) + 1
@@ -742,7 +743,7 @@ def evaluate(seed, kind, idx, stats, violations, samples, distinct, jobs_out, wa
 
 
 def run(ctx):
-    n_edit, n_fresh, n_tid = (40, 16, 40) if ctx.quick() else (360, 140, 400)
+    n_edit, n_fresh, n_tid = (40, 16, 40) if ctx.quick() else (260, 100, 400)
     stats, violations, divergences, samples, jobs = {}, [], [], [], []
     distinct = set()
     evals = 0
